@@ -46,10 +46,10 @@ type Sched struct {
 	Over      bool
 	ZeroSkips int // years skipped in this cycle because the forecast was 0 blocks
 
-	// Ambiguous is set once a cycle ended the schedule only because every remaining year had a
-	// forecast of 0 blocks (a very slow previous cycle) although the last year was still open:
-	// the documented rule does not say whether the schedule stays over when blocks speed up again,
-	// so from then on the reference accepts either reading (the larger of the two amounts).
+	// Ambiguous records that a cycle ended the schedule only because every remaining year had a
+	// forecast of 0 blocks (a very slow previous cycle) although the last year was still open.
+	// The schedule is re-evaluated at every cycle (the running application once kept such a
+	// burn-out for ever in memory; fixed in bdc129b), so this is a statistic only.
 	Ambiguous bool
 
 	// statistics
@@ -151,14 +151,7 @@ func (s *Sched) Pulled(h int64, pool *big.Int) (amount, bound *big.Int) {
 	if s.Over {
 		return new(big.Int).Set(burn), new(big.Int).Set(burn)
 	}
-	amount, bound = new(big.Int).Set(s.Amount), new(big.Int).Set(s.YearLeft)
-	if s.Ambiguous && burn.Cmp(amount) > 0 {
-		amount = new(big.Int).Set(burn)
-		if burn.Cmp(bound) > 0 {
-			bound = new(big.Int).Set(burn)
-		}
-	}
-	return
+	return new(big.Int).Set(s.Amount), new(big.Int).Set(s.YearLeft)
 }
 
 // Observe records what was credited in block h.
